@@ -898,6 +898,36 @@ def _serialize_length_prefixed(interp, args, kwargs):
     interp.emit("write", mode="delimited", frame=frame, out=out)
     if isinstance(out, ExtObj) and out.kind == "io.out":
         out.attrs["writes"].append(("delimited", frame))
+    elif isinstance(out, ExtObj) and out.kind == "io.BufferedWriter":
+        # smaller than the writer's buffer: stays there until flush/close/detach (worst case allowed by io.BufferedWriter)
+        _bw_check(interp, out)
+        out.attrs["pending"].append(("delimited", frame))
+    elif not isinstance(out, (Obj, Unknown)):
+        raise interp.unsupported(f"serialize_length_prefixed to {out!r}")
+
+
+def _bw_check(interp, o: ExtObj) -> None:
+    if o.attrs.get("detached"):
+        raise interp.exc("ValueError", "raw stream has been detached")
+    if o.attrs.get("closed"):
+        raise interp.exc("ValueError", "write to closed file")
+
+
+def _bw_flush(o: ExtObj) -> None:
+    raw = o.attrs["raw"]
+    if isinstance(raw, ExtObj) and raw.kind == "io.BufferedWriter":
+        raw.attrs["pending"].extend(o.attrs["pending"])
+    else:
+        raw.attrs["writes"].extend(o.attrs["pending"])
+    o.attrs["pending"].clear()
+
+
+def _buffered_writer(interp, args, kwargs):
+    raw = args[0] if args else kwargs.get("raw")
+    if not (isinstance(raw, ExtObj) and raw.kind in ("io.out", "io.BufferedWriter")):
+        raise interp.unsupported(f"io.BufferedWriter around {raw!r}")
+    interp.emit("wrap_out", raw=raw)
+    return ExtObj("io.BufferedWriter", {"raw": raw, "pending": [], "pyclass": "BufferedWriter"})
 
 
 def stream_root(inp: ExtObj) -> ExtObj:
@@ -995,6 +1025,7 @@ _EXT = {
     "google.protobuf.proto.parse": _parse,
     "google.protobuf.proto.serialize_length_prefixed": _serialize_length_prefixed,
     "io.BufferedReader": _buffered_reader,
+    "io.BufferedWriter": _buffered_writer,
     "io.BytesIO": _bytesio,
     "builtins.tuple.__new__": _tuple_new,
     "builtins.sum": _b_sum,
@@ -1116,7 +1147,9 @@ def getattr_ext(interp, obj: Any, name: str) -> Any:
             raise interp.exc("AttributeError", f"'_io.BytesIO' object has no attribute '{name}'")
         if obj.kind == "io.BufferedReader" and name == "raw":
             return obj.attrs["raw"]
-        if obj.kind in ("io.stream", "io.BufferedReader", "io.out", "contextvars.ContextVar", "bytes:frame", "bytes:all", "bytes:header", "bytes:chunk"):
+        if obj.kind == "io.BufferedWriter" and name == "raw":
+            return obj.attrs["raw"]
+        if obj.kind in ("io.stream", "io.BufferedReader", "io.out", "io.BufferedWriter", "contextvars.ContextVar", "bytes:frame", "bytes:all", "bytes:header", "bytes:chunk"):
             return ExtMethod(obj, obj.kind, name)
         if obj.kind == "logger":
             return ExtMethod(obj, "logger", name)
@@ -1434,7 +1467,7 @@ def call_method(interp, em: ExtMethod, args: list, kwargs: dict) -> Any:
             raise interp.unsupported("generator.send")
     if k == "ext_init":
         return None
-    if k in ("io.stream", "io.BufferedReader", "io.out", "bytes:frame", "bytes:all", "bytes:header"):
+    if k in ("io.stream", "io.BufferedReader", "io.out", "io.BufferedWriter", "bytes:frame", "bytes:all", "bytes:header"):
         return _io_method(interp, em.recv, em.name, args, kwargs)
     if k == "contextvars.ContextVar":
         cv = em.recv
@@ -1780,8 +1813,10 @@ def make_input(frames: Any, header: bytes | None, *, seekable: bool = True, buff
     return root
 
 
-def make_output() -> ExtObj:
-    return ExtObj("io.out", {"writes": []})
+def make_output(pyclass: str = "BytesIO") -> ExtObj:
+    """Abstract byte sink; pyclass names the io class it stands for (BytesIO, FileIO = raw unbuffered file/socket,
+    BufferedWriter = open(..., 'wb')), None = duck-typed object with write()."""
+    return ExtObj("io.out", {"writes": [], "pyclass": pyclass})
 
 
 def _io_method(interp, o: ExtObj, name: str, args: list, kwargs: dict) -> Any:
@@ -1793,7 +1828,41 @@ def _io_method(interp, o: ExtObj, name: str, args: list, kwargs: dict) -> Any:
             return Unknown(("written", o.uid, len(o.attrs["writes"])), "bytes written")
         if name in ("flush", "close"):
             return None
+        if name == "writable":
+            return True
+        if name in ("seekable", "readable", "isatty"):
+            return False
         raise interp.unsupported(f"output stream method {name}")
+    if o.kind == "io.BufferedWriter":
+        if name == "write":
+            _bw_check(interp, o)
+            interp.emit("write", mode="raw", data=args[0], out=o)
+            o.attrs["pending"].append(("raw", args[0]))
+            return Unknown(("written", o.uid, len(o.attrs["pending"])), "bytes written")
+        if name == "flush":
+            _bw_check(interp, o)
+            _bw_flush(o)
+            raw = o.attrs["raw"]
+            if raw.kind == "io.BufferedWriter":
+                _bw_flush(raw)
+            return None
+        if name == "close":
+            if not o.attrs.get("closed") and not o.attrs.get("detached"):
+                _bw_flush(o)
+                o.attrs["closed"] = True
+                interp.emit("close_out", out=o.attrs["raw"])
+                o.attrs["raw"].attrs["closed_by_wrapper"] = True
+            return None
+        if name == "detach":
+            _bw_check(interp, o)
+            _bw_flush(o)
+            o.attrs["detached"] = True
+            return o.attrs["raw"]
+        if name == "writable":
+            return True
+        if name in ("__enter__",):
+            return o
+        raise interp.unsupported(f"BufferedWriter method {name}")
     if o.kind in ("io.stream", "io.BufferedReader"):
         root = stream_root(o)
         is_wrapper = o.kind == "io.BufferedReader"
@@ -2216,6 +2285,13 @@ def isinstance_ext(interp, v: Any, cls: ExtRef) -> Any:
     if isinstance(v, ExtObj):
         if v.kind == n:
             return True
+        if n.startswith("io.") and v.attrs.get("pyclass"):
+            import io as _io
+
+            a, b = getattr(_io, v.attrs["pyclass"], None), getattr(_io, n[3:], None)
+            if isinstance(a, type) and isinstance(b, type):
+                return issubclass(a, b)
+            raise interp.unsupported(f"isinstance({v!r}, {n})")
         if v.kind.startswith("exc:") and n.startswith("builtins."):
             a = getattr(_pybuiltins, v.kind[4:], None)
             b = getattr(_pybuiltins, n.split(".")[-1], None)
@@ -2233,8 +2309,14 @@ def context_enter(interp, cm: Any) -> Any:
         return cm
     if isinstance(cm, ExtObj) and cm.kind == "nullcontext":
         return cm.attrs["value"]
+    if isinstance(cm, ExtObj) and cm.kind in ("io.BufferedWriter", "io.out", "io.stream", "io.BufferedReader"):
+        return cm
     raise interp.unsupported(f"context manager {cm!r}")
 
 
 def context_exit(interp, cm: Any) -> None:
+    if isinstance(cm, ExtObj) and cm.kind == "io.BufferedWriter":
+        _io_method(interp, cm, "close", [], {})
+    elif isinstance(cm, ExtObj) and cm.kind == "io.out":
+        cm.attrs["closed_by_wrapper"] = True
     return None
